@@ -303,6 +303,153 @@ def rule_tagshadow(chk, prog, tier):
     r.exhaustive = True
 
 
+# ------------------------------------------------------------------ C16.f prototype scopes
+
+def decl_asts(depth):
+    """declarator ASTs: ('id',) | ('ptr', D) | ('paren', D) | ('func', D, k) | ('arr', D)"""
+    if depth == 0:
+        return [('id',)]
+    out = [('id',)]
+    for d in decl_asts(depth - 1):
+        out += [('ptr', d), ('func', d), ('arr', d)]
+        if d[0] in ('id', 'func', 'ptr'): out.append(('paren', d))
+    return out
+
+
+def decl_tokens(d, ctr):
+    k = d[0]
+    if k == 'id': return [('TIDENT', 'f')]
+    if k == 'ptr': return [('TMUL', None)] + decl_tokens(d[1], ctr)
+    if k == 'paren': return [('TLPAREN', None)] + decl_tokens(d[1], ctr) + [('TRPAREN', None)]
+    inner = decl_tokens(d[1], ctr)
+    if d[1][0] == 'ptr': inner = [('TLPAREN', None)] + inner + [('TRPAREN', None)]
+    if k == 'func':
+        ctr[0] += 1
+        return inner + [('TLPAREN', None), ('PARAM', ctr[0]), ('TRPAREN', None)]
+    return inner + [('TLBRACK', None), ('LEN', 2), ('TRBRACK', None)]
+
+
+def decl_chain(d):
+    """derivations applied to the identifier, nearest first; parameter lists numbered in token order"""
+    ctr = [0]
+    def walk_(d):
+        k = d[0]
+        if k == 'id': return []
+        if k == 'paren': return walk_(d[1])
+        if k == 'ptr': return walk_(d[1]) + [('ptr',)]
+        inner = walk_(d[1])
+        if k == 'func':
+            ctr[0] += 1
+            return inner + [('func', ctr[0])]
+        return inner + [('arr',)]
+    return walk_(d)
+
+
+def rule_protoscope(chk, prog, tier):
+    r = chk.rule('C16.f', 'of the scopes opened for the parameter lists of a declarator, exactly the one of the function declarator applied directly to the declared identifier is handed back for the function body; every other prototype scope is closed; the derived type is built in declarator order',
+                 floor=150, oracle='C11 6.2.1p4 (function prototype scope), 6.7.6.3, 6.9.1p9')
+    fn = prog.require_func('declarator', 'decl.c')
+    asts = [d for d in decl_asts(4 if tier == 'quick' else 5)]
+    jobs = []
+    seen = set()
+    for d in asts:
+        chain = decl_chain(d)
+        # constraint violations (function returning function/array, array of functions) are C10's business
+        badc = any(a[0] == 'func' and b[0] in ('func', 'arr') or a[0] == 'arr' and b[0] == 'func' for a, b in zip(chain, chain[1:]))
+        if badc: continue
+        toks = decl_tokens(d, [0])
+        key = ' '.join({'TIDENT': 'f', 'TMUL': '*', 'TLPAREN': '(', 'TRPAREN': ')', 'TLBRACK': '[', 'TRBRACK': ']', 'PARAM': 'int p%s' % v, 'LEN': '2'}[k] for k, v in toks)
+        if key in seen: continue
+        seen.add(key)
+        for want_scope in (True, False):
+            jobs.append((key, toks, chain, want_scope))
+    def work(job):
+        key, toks, chain, want_scope = job
+        def runner(it):
+            w = World(prog, it=it, target='x86_64-sysv')
+            stream = toks + [('TSEMICOLON', None)]
+            tokobj = it.gobj('tok'); st = {'i': 0, 'scopes': 0}
+            def load():
+                k, v = stream[min(st['i'], len(stream) - 1)]
+                tokobj.f[('kind',)] = ev(prog, 'TNUMBER' if k in ('PARAM', 'LEN') else k)
+                tokobj.f[('lit',)] = Ptr(it.mkstr(list(b'f'), 'f'), (0,)) if k == 'TIDENT' else None
+                tokobj.f[('loc', 'file')] = None; tokobj.f[('loc', 'line')] = 1; tokobj.f[('loc', 'col')] = 1
+            def nxt(i2, a, e): st['i'] += 1; load(); return None
+            def consume(i2, a, e):
+                if tokobj.f[('kind',)] == a[0] and stream[min(st['i'], len(stream) - 1)][0] not in ('PARAM', 'LEN'): nxt(i2, a, e); return 1
+                return 0
+            def expect(i2, a, e):
+                if tokobj.f[('kind',)] != a[0]: raise Terminal('error', 'expected token')
+                nxt(i2, a, e); return None
+            def peek(i2, a, e):
+                k, v = stream[min(st['i'] + 1, len(stream) - 1)]
+                return int(ev(prog, k) == a[0]) if k not in ('PARAM', 'LEN') else 0
+            def mkscope(i2, a, e):
+                o = Obj('scope', 'heap'); o.f[('parent',)] = a[0]
+                o.pidx = stream[st['i']][1] if stream[st['i']][0] == 'PARAM' else None
+                i2.event('mkscope', o.pidx)
+                return Ptr(o, ())
+            def delscope(i2, a, e):
+                i2.event('delscope', getattr(a[0].obj, 'pidx', '?'))
+                return a[0].obj.f[('parent',)]
+            def parameter(i2, a, e):
+                k, v = stream[st['i']]
+                if k != 'PARAM': raise Terminal('error', 'expected parameter')
+                nxt(i2, a, e)
+                d = Obj('param', 'heap'); d.f.update({('name',): Ptr(i2.mkstr(list(b'p'), 'p'), (0,)), ('type',): w.t('int'), ('next',): None})
+                return Ptr(d, ())
+            def assignexpr(i2, a, e):
+                k, v = stream[st['i']]
+                if k != 'LEN': raise Terminal('error', 'expected expression')
+                nxt(i2, a, e)
+                return w.mkexpr('EXPRCONST', w.t('int'), u__constant__u=v)
+            it.models.update({'next': nxt, 'consume': consume, 'expect': expect, 'peek': peek, 'mkscope': mkscope, 'delscope': delscope, 'parameter': parameter,
+                              'assignexpr': assignexpr, 'eval': lambda i2, a, e: a[0], 'attr': lambda i2, a, e: 0, 'gnuattr': lambda i2, a, e: 0, 'typequal': lambda i2, a, e: 0,
+                              'scopeputdecl': lambda i2, a, e: None, 'istypename': lambda i2, a, e: 0,
+                              'xmalloc': lambda i2, a, e: Ptr(Obj('heap@%s' % e.get('line'), 'heap'), ()),
+                              'error': lambda i2, a, e: (_ for _ in ()).throw(Terminal('error', cmodel.fmt_of(i2, a, 1))),
+                              'fatal': lambda i2, a, e: (_ for _ in ()).throw(Terminal('fatal', cmodel.fmt_of(i2, a, 0)))})
+            load()
+            file_scope = Ptr(Obj('filescope', 'heap'), ())
+            base = StructVal({('type',): w.t('int'), ('qual',): 0, ('expr',): None})
+            nameobj = Obj('name', 'local'); nameobj.f[()] = None
+            fsobj = Obj('funcscope', 'local'); fsobj.f[()] = UNINIT
+            res = it.call(fn, [file_scope, base, Ptr(nameobj, ()), Ptr(fsobj, ()) if want_scope else None, 0])
+            # derived type chain, outermost first
+            t = res.f[('type',)]; got = []
+            K = {ev(prog, 'TYPEPOINTER'): 'ptr', ev(prog, 'TYPEFUNC'): 'func', ev(prog, 'TYPEARRAY'): 'arr'}
+            while True:
+                kd = it.load(t.obj, t.path + ('kind',))
+                if kd not in K: break
+                if K[kd] == 'func':
+                    got.append(('func', it.load(t.obj, t.path + ('u', 'func', 'nparam'))))
+                else: got.append((K[kd],))
+                t = it.load(t.obj, t.path + ('base',))
+            fs = fsobj.f[()] if want_scope else 'n/a'
+            kept = getattr(fs.obj, 'pidx', '?') if isinstance(fs, Ptr) else fs
+            consumed = stream[min(st['i'], len(stream) - 1)][0] == 'TSEMICOLON'
+            return got, kept, [e_ for e_ in it.events if e_[0] in ('mkscope', 'delscope')], consumed
+        runs = explore(prog, runner, {}, max_runs=4, on_unsupported='keep')
+        if len(runs) != 1: return job, 'unsupported', '%d paths' % len(runs)
+        return job, runs[0].outcome, (runs[0].value if runs[0].outcome == 'return' else str(runs[0].detail))
+    for (key, toks, chain, want_scope), outcome, val in par.pmap(work, jobs):
+        k2 = 'declarator:%s%s' % (key, '' if want_scope else ' (no body possible)')
+        if outcome == 'unsupported':
+            raise AnalysisBroken('declarator %s: %s' % (k2, val))
+        if outcome != 'return':
+            r.instance(False, k2, 'decl.c:declaratortypes', 'valid declarator rejected: %s %s' % (outcome, val)); continue
+        got, kept, evs, consumed = val
+        want_kept = (chain[0][1] if chain and chain[0][0] == 'func' else None) if want_scope else 'n/a'
+        nlists = sum(1 for c in chain if c[0] == 'func')
+        opened = [e_[1] for e_ in evs if e_[0] == 'mkscope']; closed = [e_[1] for e_ in evs if e_[0] == 'delscope']
+        want_closed = sorted(x for x in range(1, nlists + 1) if x != want_kept)
+        want_chain = [c[0] for c in chain]
+        ok = kept == want_kept and sorted(opened) == list(range(1, nlists + 1)) and sorted(closed) == want_closed and [g[0] for g in got] == want_chain and consumed
+        r.instance(ok, k2, 'decl.c:declaratortypes', 'type %s (expected %s); scope handed to the body: parameter list %s (expected %s); prototype scopes closed %s (expected %s)' % (
+            [g[0] for g in got], want_chain, kept, want_kept, sorted(closed), want_closed))
+    r.exhaustive = False
+
+
 def run(chk, tier):
     prog = facts.programs()['cproc-qbe']
     chk.guard('C16.a', lambda: rule_map(chk, prog, tier))
@@ -310,3 +457,4 @@ def run(chk, tier):
     chk.guard('C16.c', lambda: rule_stringkey(chk, prog, tier))
     chk.guard('C16.d', lambda: rule_namespaces(chk, prog, tier))
     chk.guard('C16.e', lambda: rule_tagshadow(chk, prog, tier))
+    chk.guard('C16.f', lambda: rule_protoscope(chk, prog, tier))
